@@ -106,6 +106,21 @@ EArgUniverse(q) == UNION {{m.args[i].n : i \in 1..Len(m.args)} : m \in EAllMetho
 EResponses(part) == {<<m.wire, m.resp>> : m \in Range(EMethodsOf(part, "query"))}
 EContractResponses(q) == UNION {EResponses(q.parts[i]) : i \in 1..Len(q.parts)}
 
+(* ---- the JSON encoding of the value an echo query handler returns, per declared response type ---- *)
+(* (tagged JSON values, DESIGN 5.3; m: an elaborated method) *)
+QObj(m, b) == [t |-> "o", f |-> << [k |-> "h", v |-> [t |-> "s", v |-> m.name]],
+                                   [k |-> "code", v |-> [t |-> "n", v |-> ToString(m.code)]] >>
+                                \o (IF b THEN << [k |-> "extra", v |-> [t |-> "b", v |-> "true"]] >> ELSE <<>>)]
+JArr(es) == [t |-> "a", e |-> es]
+JNum(n) == [t |-> "n", v |-> ToString(n)]
+QRespJson(m) ==      \* the JSON encoding of the value the echo query handler returns (its declared response type)
+    CASE m.ret = "QRespB"  -> QObj(m, TRUE)
+      [] m.ret = "Tup1"    -> JArr(<<QObj(m, FALSE)>>)                      \* (QResp,)
+      [] m.ret = "Tup2"    -> JArr(<<QObj(m, FALSE), JNum(m.code)>>)        \* (QResp, u64)
+      [] m.ret = "VecTup1" -> JArr(<<JArr(<<JNum(m.code)>>)>>)              \* Vec<(u64,)> with one element
+      [] m.ret = "ArrB"    -> JArr(<<QObj(m, TRUE), QObj(m, TRUE)>>)        \* [QRespB; 2]
+      [] OTHER             -> QObj(m, FALSE)
+
 (* ---- JSON shape of messages (C01) -------------------------------------- *)
 (* tagged JSON values (DESIGN 5.3): objects are [t |-> "o", f |-> <<[k, v], ...>>] *)
 IsObj(j)   == "t" \in DOMAIN j /\ j.t = "o"
